@@ -313,6 +313,13 @@ Definition read_current (E : env) (st : store) (a : api) (o : opts) : result :=
                            else []
                 end |}.
 
+(* ---------------------------------------------------------------- sessions on one handle
+   A Table handle carries no read state (the read path of the code caches nothing between calls): a session
+   is a sequence of reads, each evaluated against the store as it is at that moment.  The session
+   correspondence (harness: reads, then damage, then a read through the SAME handle) ties this to the code. *)
+Definition read_session (E : env) (reads : list (store * api * opts)) : list result :=
+  map (fun r => read_current E (fst (fst r)) (snd (fst r)) (snd r)) reads.
+
 (* ================================================================ specification side
    What the table *is*, read off the store without any error handling: used by the theorems to say
    "exactly the rows of the current snapshot" and "reachable from the current snapshot". *)
